@@ -207,12 +207,21 @@ def other_decompile_paths(ctx, label, data, o, names):
     from fickling import tracing
     f = de.fickle()
     agg = ctx.agg
-    for path in ("trace", "interpreter"):
+    for path in ("trace", "interpreter", "interpret-static", "stepped-by-hand"):
         try:
             interp = f.Interpreter(f.Pickled.load(data))
             if path == "trace":
                 with contextlib.redirect_stdout(io.StringIO()):
                     mod = tracing.Trace(interp).run()
+            elif path == "interpret-static":
+                mod = f.Interpreter.interpret(f.Pickled.load(data))
+            elif path == "stepped-by-hand":
+                try:
+                    while True:
+                        interp.step()
+                except StopIteration:
+                    pass
+                mod = interp.to_ast()
             else:
                 mod = interp.to_ast()
             if mod is None:
